@@ -96,7 +96,7 @@ def _only(name):
 
 def harness_specs(tier):
     runner.JOBS = min(runner.JOBS, MAX_PARALLEL_COMPILES)     # sanitizer TUs are heavy; the machine is shared
-    specs = [t['spec'] for t in tus(tier)] + [M_SPEC] + list(_replay_specs(tier).values())
+    specs = [t['spec'] for t in tus(tier)] + [M_SPEC, CAP_SPEC] + CAPV_SPECS + list(_replay_specs(tier).values())
     return [s for s in specs if _only(s['name'])]
 
 
@@ -716,12 +716,390 @@ def gen_assign(tier, rng):
                        oracle='ok data=' + fmt(d), tags=('assign', 'over-provisioned' if threads > n else 'exact-or-short'))
 
 
+
+# ------------------------------------------------------------------------------------------------
+# (c) capacity: index functions with bounded results, bounded operands up to FULL capacity (harness/h_c02cap.cpp)
+# ------------------------------------------------------------------------------------------------
+H_CAP = 'h_c02cap'
+CAP_SPEC = dict(name=H_CAP, src='h_c02cap.cpp', flavour='san-dbg', extra=['-DPROTO_VERIF_EVENTS'])
+CAP_S, CAP_L = 4, 3           # largest capacities instantiated by the TU: shapes / argument lists
+
+
+def _pool_extent(n, k, s, ceil):
+    if not ceil:
+        return (n - k) // s + 1
+    o = -((n - k) // -s) + 1
+    return o - 1 if o > 1 and (o - 1) * s >= n else o
+
+
+def _moveaxis_order(dim, src, dst):
+    """NumPy's own construction (numpy/core/numeric.py: moveaxis)"""
+    src = [a % dim for a in src]
+    dst = [a % dim for a in dst]
+    order = [n for n in range(dim) if n not in src]
+    for d, sa in sorted(zip(dst, src)):
+        order.insert(d, sa)
+    return order
+
+
+def _in_range(axes, n):
+    return all(-n <= a < n for a in axes)
+
+
+class CapGen:
+    """requests `cap fn=…`; the oracle is the reference shape (NumPy where NumPy has the function) and the capacity formula of
+    the result container read off the metafunction"""
+
+    def __init__(self, tier, rng):
+        self.tier, self.rng, self.seen = tier, rng, set()
+
+    def case(self, fn, kv, cap, value, full):
+        req = 'cap fn=%s %s' % (fn, ' '.join('%s=%s' % (k, v if isinstance(v, str) else (fmt(v) if isinstance(v, (list, tuple)) else v)) for k, v in kv))
+        if req in self.seen:
+            return None
+        self.seen.add(req)
+        oracle = 'nothing' if value is None else 'ok cap=%d value=%s' % (cap, fmt(value))
+        return Case(req, H_CAP, dom=True, oracle=oracle, model=True, nontrivial=value is not None,
+                    tags=('cap', 'cap:' + fn) + (('full-capacity',) if full else ()) + (('refused',) if value is None else ()))
+
+    def caps(self, n, mx):
+        """capacities tried for an operand of n entries: full, and (sampled) with slack"""
+        out = [max(n, 1)]
+        if max(n, 1) < mx and self.rng.random() < .4:
+            out.append(self.rng.randint(max(n, 1) + 1, mx))
+        return out
+
+    def gen(self):
+        rng = self.rng
+        quick = self.tier == 'quick'
+        pos = [s for s in shapes(CAP_S, 3, min_rank=1)]
+        sample = lambda l, k: l if len(l) <= k else rng.sample(l, k)
+        # --- expand_dims: every axis list of 1..3 distinct axes (negative forms sampled), and refused ones
+        for s in sample(pos, 40 if quick else 120):
+            for m in range(1, CAP_L + 1):
+                n = len(s) + m
+                combos = [list(c) for c in itertools.combinations(range(n), m)]
+                for ax in sample(combos, 4 if quick else 10):
+                    rng.shuffle(ax)
+                    ax = [a - n if rng.random() < .4 else a for a in ax]
+                    v = list(np.expand_dims(np.empty(tuple(s), dtype=np.int8), tuple(ax)).shape)
+                    for bs in self.caps(len(s), CAP_S):
+                        for ba in self.caps(m, CAP_L):
+                            yield self.case('expand_dims', [('shape', s), ('bs', bs), ('axes', ax), ('ba', ba)], bs + ba, v,
+                                            bs == len(s) and ba == m)
+                bad = [rng.randint(-n - 2, n + 1) for _ in range(m)]
+                if not _in_range(bad, n) or len({a % n for a in bad}) < m:
+                    yield self.case('expand_dims', [('shape', s), ('bs', len(s)), ('axes', bad), ('ba', m)], 0, None, True)
+            for a in range(-len(s) - 1, len(s) + 1):
+                v = list(np.expand_dims(np.empty(tuple(s), dtype=np.int8), a).shape)
+                for bs in self.caps(len(s), CAP_S):
+                    yield self.case('expand_dims1', [('shape', s), ('bs', bs), ('axis', a)], bs + 1, v, bs == len(s))
+        # --- squeeze / remove_single_dims (positive extents)
+        for s in pos:
+            v = [e for e in s if e != 1]
+            for bs in self.caps(len(s), CAP_S):
+                yield self.case('squeeze', [('shape', s), ('bs', bs)], bs, v, bs == len(s))
+                yield self.case('remove_single_dims', [('shape', s), ('bs', bs)], bs, v, bs == len(s))
+        # --- sliding_window
+        wide = [[rng.randint(2, 6) for _ in range(r)] for r in range(1, CAP_S + 1) for _ in range(6 if quick else 25)]
+        for s in wide:
+            r = len(s)
+            x = np.empty(tuple(s), dtype=np.int8)
+            swv = np.lib.stride_tricks.sliding_window_view
+            for _ in range(4):
+                m = rng.randint(1, min(CAP_L, 3))
+                axes = [rng.randrange(r) for _ in range(m)]
+                budget = list(s)
+                ws = []
+                for a in axes:
+                    w = rng.randint(1, budget[a])
+                    budget[a] -= w - 1
+                    ws.append(w)
+                ax = [a - r if rng.random() < .4 else a for a in axes]
+                v = list(swv(x, tuple(ws), tuple(ax)).shape)
+                for bs in self.caps(r, CAP_S):
+                    for bw in self.caps(m, CAP_L):
+                        yield self.case('sliding_window', [('shape', s), ('bs', bs), ('window', ws), ('bw', bw), ('axes', ax)], bs + bw, v,
+                                        bs == r and bw == m)
+            if r <= CAP_L:
+                ws = [rng.randint(1, e) for e in s]
+                v = list(swv(x, tuple(ws)).shape)
+                for bs in self.caps(r, CAP_S):
+                    yield self.case('sliding_window', [('shape', s), ('bs', bs), ('window', ws), ('bw', r), ('axes', 'None')], bs + r, v, bs == r)
+            w = rng.randint(1, min(s))
+            v = list(swv(x, w).shape) if r == 1 else list(swv(x, (w,) * r).shape[:r]) + [w]
+            for bs in self.caps(r, CAP_S):
+                yield self.case('sliding_window', [('shape', s), ('bs', bs), ('window', w), ('scalar', 1), ('axes', 'None')], bs + 1, v, bs == r)
+            a = rng.randrange(-r, r)
+            w = rng.randint(1, s[a])
+            v = list(swv(x, w, a).shape)
+            for bs in self.caps(r, CAP_S):
+                yield self.case('sliding_window', [('shape', s), ('bs', bs), ('window', w), ('scalar', 1), ('axes', a)], bs + 1, v, bs == r)
+        # --- take / dynamic slice / roll / resize / expand / pool2d / diagonal / moveaxis: rank-preserving or rank-reducing
+        for s in sample(pos, 40 if quick else 120) + wide:
+            r = len(s)
+            x = np.empty(tuple(s), dtype=np.int8)
+            bss = self.caps(r, CAP_S)
+            for bs in bss:
+                full = bs == r
+                a = rng.randrange(-r, r)
+                n = rng.randint(1, 4)
+                yield self.case('take', [('shape', s), ('bs', bs), ('nidx', n), ('axis', a)], bs, list(np.take(x, [0] * n, axis=a).shape), full)
+                f = []
+                for e in s[:rng.randint(1, r)]:
+                    b = rng.randrange(e)
+                    f += [b, rng.randint(b + 1, e), rng.choice((1, 1, 2))]
+                sl = tuple(slice(f[i], f[i + 1], f[i + 2]) for i in range(0, len(f), 3))
+                yield self.case('dslice', [('shape', s), ('bs', bs), ('sl', f)], bs, list(x[sl].shape), full)
+                m = rng.randint(1, CAP_L)
+                ax = [rng.randrange(-r, r) for _ in range(m)]
+                sh = [rng.randint(-4, 4) for _ in range(m)]
+                for ba in self.caps(m, CAP_L):
+                    yield self.case('roll', [('shape', s), ('bs', bs), ('shift', sh), ('axes', ax), ('ba', ba)], bs, list(s), full and ba == m)
+                    sp = [rng.randint(0, 2) for _ in range(m)]
+                    t = list(s)
+                    for a_, p_ in zip(ax, sp):
+                        t[a_] += (t[a_] - 1) * p_
+                    yield self.case('expand', [('shape', s), ('bs', bs), ('axes', ax), ('ba', ba), ('spacing', sp)], bs, t, full and ba == m)
+                bad = list(ax)
+                bad[rng.randrange(m)] = rng.choice((r, -r - 1, r + 1))
+                yield self.case('roll', [('shape', s), ('bs', bs), ('shift', sh), ('axes', bad), ('ba', m)], 0, None, full)
+                dst = [rng.randint(1, 5) for _ in range(r)]
+                for bd in self.caps(r, CAP_S):
+                    yield self.case('resize', [('shape', s), ('bs', bs), ('dst', dst), ('bd', bd)], bd, dst, full and bd == r)
+                if rng.random() < .3:
+                    z = list(dst)
+                    z[rng.randrange(r)] = 0
+                    yield self.case('resize', [('shape', s), ('bs', bs), ('dst', z), ('bd', r)], 0, None, full)
+                if r >= 2:
+                    a1, a2 = rng.sample(range(r), 2)
+                    off = rng.randint(-3, 3)
+                    v = list(np.diagonal(x, off, a1, a2).shape)
+                    b1 = a1 - r if rng.random() < .4 else a1
+                    b2 = a2 - r if rng.random() < .4 else a2
+                    yield self.case('diagonal', [('shape', s), ('bs', bs), ('offset', off), ('axis1', b1), ('axis2', b2)], bs - 1, v, full)
+                    kh, kw = rng.randint(1, s[-2]), rng.randint(1, s[-1])
+                    sh_, sw_ = rng.randint(1, 3), rng.randint(1, 3)
+                    c = rng.randint(0, 1)
+                    v = list(s[:-2]) + [_pool_extent(s[-2], kh, sh_, c), _pool_extent(s[-1], kw, sw_, c)]
+                    yield self.case('pool2d', [('shape', s), ('bs', bs), ('kernel', [kh, kw]), ('stride', [sh_, sw_]), ('ceil', c)], bs, v, full)
+                m = rng.randint(1, min(r, CAP_L))
+                src = rng.sample(range(r), m)
+                dst_ = rng.sample(range(r), m)
+                srcn = [a - r if rng.random() < .4 else a for a in src]
+                dstn = [a - r if rng.random() < .4 else a for a in dst_]
+                for ba in self.caps(m, CAP_L):
+                    yield self.case('moveaxis', [('shape', s), ('bs', bs), ('source', srcn), ('ba', ba), ('destination', dstn), ('bb', ba)], bs,
+                                    _moveaxis_order(r, srcn, dstn), full and ba == m)
+                badm = list(srcn)
+                badm[rng.randrange(m)] = rng.choice((r, -r - 1))
+                yield self.case('moveaxis', [('shape', s), ('bs', bs), ('source', badm), ('ba', m), ('destination', dstn), ('bb', m)], 0, None, full)
+        # --- normalize_axis on axis lists of 1..4 entries
+        for ndim in range(1, 6):
+            for m in range(1, CAP_S + 1):
+                for _ in range(3 if quick else 10):
+                    ax = [rng.randrange(-ndim, ndim) for _ in range(m)]
+                    for ba in self.caps(m, CAP_S):
+                        yield self.case('normalize_axis', [('axes', ax), ('ba', ba), ('ndim', ndim)], ba, [a % ndim for a in ax], ba == m)
+                bad = [rng.randrange(-ndim, ndim) for _ in range(m)]
+                bad[rng.randrange(m)] = rng.choice((ndim, -ndim - 1, ndim + 3))
+                yield self.case('normalize_axis', [('axes', bad), ('ba', m), ('ndim', ndim)], 0, None, True)
+        # --- matmul: every pair of ranks 1..4 (1-d promotion, broadcast batch axes), both operands at full capacity and with slack
+        for ra in range(1, CAP_S + 1):
+            for rb in range(1, CAP_S + 1):
+                for _ in range(4 if quick else 16):
+                    k = rng.randint(1, 3)
+                    ba_ = [rng.randint(1, 3) for _ in range(max(ra - 2, 0))]
+                    bb_ = [rng.choice((e, 1)) for e in ba_[max(0, len(ba_) - max(rb - 2, 0)):]]
+                    bb_ = [rng.randint(1, 3) for _ in range(max(rb - 2, 0) - len(bb_))] + bb_
+                    if rng.random() < .5:
+                        ba_ = [rng.choice((e, 1)) if i >= len(ba_) - len(bb_) else e for i, e in enumerate(ba_)]
+                    A = ba_ + ([rng.randint(1, 3), k] if ra >= 2 else [k])
+                    B = bb_ + ([k, rng.randint(1, 3)] if rb >= 2 else [k])
+                    if rng.random() < .15:
+                        B[-2 if rb >= 2 else 0] = k + 1
+                    try:
+                        v = list(np.matmul(np.empty(tuple(A), dtype=np.int8), np.empty(tuple(B), dtype=np.int8)).shape)
+                    except ValueError:
+                        v = None
+                    for bs in self.caps(ra, CAP_S):
+                        for bb in self.caps(rb, CAP_S):
+                            yield self.case('matmul', [('shape', A), ('bs', bs), ('shape2', B), ('bb', bb)], max(bs, bb), v, bs == ra and bb == rb)
+
+
+def gen_cap(tier, rng):
+    for c in CapGen(tier, rng).gen():
+        if c is not None:
+            yield c
+
+
+# ---- the same functions at view level over bounded storage at full capacity (harness/h_c02capv.cpp) --------------------
+CAPV_KINDS = {'expand_dims': 1, 'squeeze': 2, 'sliding_window': 4, 'moveaxis': 8, 'roll': 16, 'resize': 32, 'expand': 64,
+              'diagonal': 128, 'matmul': 256, 'max_pool2d': 512, 'avg_pool2d': 512}
+CAPV_TUS = {'h_c02capv_a': 1 | 2 | 4, 'h_c02capv_b': 8 | 16 | 32 | 64 | 128 | 512, 'h_c02capv_c': 256}
+CAPV_SPECS = [dict(name=n, src='h_c02capv.cpp', flavour='san-dbg', extra=['-DPROTO_VERIF_EVENTS', '-DC02V_MASK=%d' % m])
+              for n, m in CAPV_TUS.items()]
+CAPV_MODELLED = {'expand_dims', 'squeeze', 'sliding_window', 'moveaxis', 'roll', 'resize', 'expand', 'diagonal'}
+
+
+def _capv_tu(kind):
+    return next(n for n, m in CAPV_TUS.items() if m & CAPV_KINDS[kind])
+
+
+def _np_resize(x, dst):
+    out = np.empty(tuple(dst), dtype=np.int64)
+    for d in itertools.product(*[range(e) for e in dst]):
+        out[d] = x[tuple(s * i // t for s, i, t in zip(x.shape, d, dst))]
+    return out
+
+
+def _np_expand(x, axes, spacing):
+    for a, sp in zip(axes, spacing):
+        a %= x.ndim
+        t = list(x.shape)
+        t[a] = t[a] + (t[a] - 1) * sp
+        y = np.full(tuple(t), -1, dtype=np.int64)
+        sl = [slice(None)] * x.ndim
+        sl[a] = slice(None, None, sp + 1)
+        y[tuple(sl)] = x
+        x = y
+    return x
+
+
+def _np_max_pool(x, k, st, ceil):
+    H, W = x.shape[-2:]
+    oh, ow = _pool_extent(H, k[0], st[0], ceil), _pool_extent(W, k[1], st[1], ceil)
+    out = np.empty(x.shape[:-2] + (oh, ow), dtype=np.int64)
+    for i in range(oh):
+        for j in range(ow):
+            out[..., i, j] = x[..., st[0] * i: st[0] * i + k[0], st[1] * j: st[1] * j + k[1]].max(axis=(-2, -1))
+    return out
+
+
+def _cmp_shape_clean(a, b):
+    """avg_pool2d: the element type of the result is the library's business (C17); here: accepted, clean, the reference shape"""
+    return c02_clean(a) and a.split(' data=')[0] == b.split(' data=')[0]
+
+
+def known_diagonal_equal_axes(case):
+    """known finding `diagonal.equal-axes`: view::diagonal(a, offset, axis1, axis2) with axis1 and axis2 naming the SAME axis"""
+    if not case.req.startswith('capv kind=diagonal '):
+        return False
+    d = dict(kv.split('=', 1) for kv in case.req.split()[1:])
+    r = len(d['shape'].split(','))
+    return int(d['axis1']) % r == int(d['axis2']) % r
+
+
+def gen_capv(tier, rng):
+    quick = tier == 'quick'
+    seen = set()
+
+    def case(kind, kv, ref, cmp=None):
+        req = 'capv kind=%s %s' % (kind, ' '.join('%s=%s' % (k, v if isinstance(v, str) else (fmt(v) if isinstance(v, (list, tuple)) else v)) for k, v in kv))
+        if req in seen or (ref is not None and ref.size > MAX_ELEMS):
+            return None
+        seen.add(req)
+        mod = kind in CAPV_MODELLED
+        return Case(req, _capv_tu(kind), dom=mod, oracle='nothing' if ref is None else show(ref), model=mod, cmp=cmp,
+                    tags=('capv', 'capv:' + kind, 'store=sv-full', 'full-capacity'))
+
+    def iota(s, base=0):
+        return np.arange(prod(s), dtype=np.int64).reshape(tuple(s)) + base
+
+    pool = [s for s in shapes(4, 3, min_rank=1) if prod(s) <= 64]
+    pick = pool if not quick else [s for s in pool if len(s) <= 2] + rng.sample([s for s in pool if len(s) > 2], 30)
+    swv = np.lib.stride_tricks.sliding_window_view
+    for s in pick:
+        r = len(s)
+        x = iota(s)
+        # expand_dims: 1..3 axes (a rank-4 source at capacity 4 with 3 axes at capacity 3 gives the largest result: 7 axes)
+        for m in range(1, 4):
+            n = r + m
+            ax = rng.sample(range(n), m)
+            ax = [a - n if rng.random() < .4 else a for a in ax]
+            yield case('expand_dims', [('shape', s), ('axes', ax)], np.expand_dims(x, tuple(ax)))
+        yield case('squeeze', [('shape', s)], np.squeeze(x))
+        # moveaxis / roll / expand with 1..3 axes
+        for m in range(1, min(r, 3) + 1):
+            src, dst = rng.sample(range(r), m), rng.sample(range(r), m)
+            src = [a - r if rng.random() < .4 else a for a in src]
+            dst = [a - r if rng.random() < .4 else a for a in dst]
+            yield case('moveaxis', [('shape', s), ('source', src), ('destination', dst)], np.moveaxis(x, src, dst))
+        for m in range(1, 4):
+            ax = [rng.randrange(-r, r) for _ in range(m)]
+            sh = [rng.randint(-4, 4) for _ in range(m)]
+            yield case('roll', [('shape', s), ('shift', sh), ('axes', ax)], np.roll(x, tuple(sh), tuple(ax)))
+            sp = [rng.randint(0, 2) for _ in range(m)]
+            yield case('expand', [('shape', s), ('axes', ax), ('spacing', sp)], _np_expand(x, ax, sp))
+        dst = [rng.randint(1, 4) for _ in range(r)]
+        yield case('resize', [('shape', s), ('dst', dst)], _np_resize(x, dst))
+        if r >= 2:
+            a1, a2 = rng.sample(range(r), 2)
+            off = rng.randint(-2, 2)
+            b1 = a1 - r if rng.random() < .4 else a1
+            b2 = a2 - r if rng.random() < .4 else a2
+            yield case('diagonal', [('shape', s), ('offset', off), ('axis1', b1), ('axis2', b2)], np.diagonal(x, off, a1, a2))
+    # sliding windows and pooling want larger extents
+    for _ in range(60 if quick else 400):
+        r = rng.randint(1, 4)
+        s = [rng.randint(2, 4) for _ in range(r)]
+        if prod(s) > 64:
+            continue
+        x = iota(s)
+        m = rng.randint(1, 3)
+        axes = [rng.randrange(r) for _ in range(m)]
+        budget = list(s)
+        ws = []
+        for a in axes:
+            w = rng.randint(1, budget[a])
+            budget[a] -= w - 1
+            ws.append(w)
+        ax = [a - r if rng.random() < .4 else a for a in axes]
+        yield case('sliding_window', [('shape', s), ('window', ws), ('axes', ax)], swv(x, tuple(ws), tuple(ax)))
+        if r <= 3:
+            ws = [rng.randint(1, e) for e in s]
+            yield case('sliding_window', [('shape', s), ('window', ws), ('axes', 'None')], swv(x, tuple(ws)))
+        a = rng.randrange(-r, r)
+        w = rng.randint(1, s[a])
+        yield case('sliding_window', [('shape', s), ('window', w), ('scalar', 1), ('axes', a)], swv(x, w, a))
+        if r == 1:
+            yield case('sliding_window', [('shape', s), ('window', w), ('scalar', 1), ('axes', 'None')], swv(x, w))
+        if r >= 2:
+            k = [rng.randint(1, s[-2]), rng.randint(1, s[-1])]
+            st = [rng.randint(1, 3), rng.randint(1, 3)]
+            c = rng.randint(0, 1)
+            ref = _np_max_pool(x, k, st, c)
+            yield case('max_pool2d', [('shape', s), ('kernel', k), ('stride', st), ('ceil', c)], ref)
+            yield case('avg_pool2d', [('shape', s), ('kernel', k), ('stride', st), ('ceil', c)], ref, cmp=_cmp_shape_clean)
+    # matmul: every pair of ranks, both operands at full capacity
+    for ra in range(1, 5):
+        for rb in range(1, 5):
+            for _ in range(3 if quick else 12):
+                k = rng.randint(1, 3)
+                ba_ = [rng.randint(1, 2) for _ in range(max(ra - 2, 0))]
+                nb = max(rb - 2, 0)
+                bb_ = [rng.choice((e, 1)) for e in ba_[max(0, len(ba_) - nb):]]
+                bb_ = [rng.randint(1, 2) for _ in range(nb - len(bb_))] + bb_
+                A = ba_ + ([rng.randint(1, 3), k] if ra >= 2 else [k])
+                B = bb_ + ([k, rng.randint(1, 3)] if rb >= 2 else [k])
+                if prod(A) > 64 or prod(B) > 64:
+                    continue
+                yield case('matmul', [('shape', A), ('shape2', B)], np.matmul(iota(A), iota(B, 1000)))
+    # known finding diagonal.equal-axes: must be refused (NumPy: ValueError), the unchanged code builds the view
+    for s, a1, a2 in (([2, 3], 0, 0), ([3, 3], 1, -1), ([2, 2, 3], -1, 2)):
+        req = 'capv kind=diagonal shape=%s offset=0 axis1=%d axis2=%d' % (fmt(s), a1, a2)
+        yield Case(req, _capv_tu('diagonal'), dom=False, oracle='nothing', model=False,
+                   tags=('capv', 'capv:diagonal', 'known-defect-class', 'known:diagonal.equal-axes'))
+
+
 def gen_all(tier, rng):
     yield from gen_chains(tier, random.Random(rng.random()))
     sub = random.Random(rng.random())
     yield from gen_mut(tier, sub)
     yield from gen_tree(tier, sub)
     yield from gen_assign(tier, sub)
+    yield from gen_cap(tier, random.Random(sub.random()))
+    yield from (c for c in gen_capv(tier, random.Random(sub.random())) if c is not None)
     yield from gen_replay(tier, rng)
 
 
@@ -794,7 +1172,11 @@ RULE = ('every request runs in a binary built with ASan+UBSan, _GLIBCXX_ASSERTIO
         'depth-1 set and a subset of depth 2 over BOUNDED storage (ndarray_t<static_vector<int,64>,static_vector<size_t,4>> with '
         'static_vector<_,8> arguments), FIXED buffers (ndarray_t<std::array,std::array>), hybrid_ndarray and fixed_ndarray; mutable_reshape/'
         'flatten/slice/ref writing every element over four storage kinds; add / concatenate of two views (trees); assign_result over '
-        'over-provisioned launches. Values are compared with NumPy, indexing chains also with the Lean model (composition of the per-kind '
+        'over-provisioned launches. CAPACITY (h_c02cap.cpp): 16 index functions called with static_vector operands of a capacity chosen per request '
+        '(full capacity and with slack): expand_dims (1..3 axes, int axis), squeeze, remove_single_dims, sliding_window (window / axis lists, None, scalars), take, '
+        'dynamic slice, moveaxis, normalize_axis, roll, resize, expand, diagonal, matmul (all rank pairs 1..4), pool2d, incl. refused arguments; the answer carries '
+        'bounded_size_v of the real result type. (h_c02capv.cpp) the same kinds as VIEWS over ndarray_t<static_vector<int,64>,static_vector<size_t,rank>> '
+        '(shape container at full capacity, argument lists in static_vector<_,len>), every element read. Values are compared with NumPy, indexing chains also with the Lean model (composition of the per-kind '
         'IxViews). REPLAY: the accepted requests (reference answer is a value; not in a known-finding class of the owning property) of the '
         'generators of C03, C04, C06, C07 (first TU), C08 through their own harness sources rebuilt with sanitizers + hook events '
         '(operands <= 128 / 512 elements; at most 12000 / 10000 requests per binary, uniformly subsampled beyond that); only '
@@ -805,6 +1187,11 @@ ANCHORS = {
     'Props.C02.buffer_access_in_bounds (NDA.offset < data.length)': 'base_ndarray_t::operator() -> offset_(indices) -> at(data_, offset) (ndarray/base_ndarray.hpp)',
     'Props.C02.eval_indices_inShape': 'evaluator_t<view,none>::operator()(output&): ndindex(shape) for both sides (eval.hpp)',
     'Props.C02.*_len_le_cap': 'resolve_optype of index::shape_transpose / shape_reshape / broadcast_shape / shape_tile / remove_dims / shape_concatenate / shape_pad / shape_repeat for bounded operands; utl::static_vector::resize/push_back (hook event 1)',
+    'Cap.capExpandDims / capSame / capSlidingWindow / capDiagonal / capMatmul (Index/Capacity.lean) + Props.C02.shapeExpandDims_len_le_cap … shapePool2d_len_le_cap':
+        'meta::resolve_optype<index::shape_expand_dims_t | shape_squeeze_t | remove_single_dims_t | shape_sliding_window_t | shape_take_t | shape_dynamic_slice_t | '
+        'moveaxis_to_transpose_t | normalize_axis_t | shape_roll_t | shape_resize_t | shape_expand_t | shape_diagonal_t | shape_matmul_t | shape_pool2d_t> '
+        '(bounded branch) and the resize()/at() loops of the functions (index/*.hpp, view/expand.hpp, view/diagonal.hpp, view/matmul.hpp); the harness prints '
+        'meta::bounded_size_v of the real result type (h_c02cap.cpp)',
     'Driver.C02.chainView (IxView.comp of the per-kind models)': 'nested view::X(view::Y(array,...),...) read through apply_at',
     'Props.C02.<kind>_inBounds': 'the index function of that view kind, see ANCHORS of C03 / C04 / C06 / C07 / C08 / C17',
 }
@@ -816,7 +1203,17 @@ ASSUMPTIONS = [
     'size_t arithmetic does not wrap: element counts explored are <= 600 per view',
 ]
 PARTIAL = [
-           'capacity theorems cover shape_transpose, shape_reshape, broadcast_shape, shape_tile, remove_dims, shape_concatenate, shape_pad, shape_repeat; the other bounded index results (expand_dims, sliding_window, take, ...) are covered by the capacity hook only']
+    'capacity theorems (X_len_le_cap) cover the SHAPE functions shape_transpose, shape_reshape, broadcast_shape, shape_tile, remove_dims, '
+    'shape_concatenate, shape_pad, shape_repeat, shape_expand_dims, shape_squeeze, remove_single_dims, shape_sliding_window, shape_take, '
+    'shape_slice, shape_dynamic_slice, moveaxis_to_transpose, normalize_axis, shape_roll, shape_resize, shape_expand, shape_diagonal, '
+    'shape_matmul, shape_pool2d, and the index MAPS index::sliding_window / take / roll / resize / expand / diagonal (result bound = the source '
+    'shape\'s bound); not covered by a theorem (capacity hook + sanitizers on bounded operands at full capacity only): index::matmul / '
+    'slice_pool2d slice lists, the convolution helpers of view/convnd.hpp (conv_reshape_input / weight / reduce / '
+    'bias, conv_kernel_size, conv_window_axis, conv_sum_axes, conv_expand_spacing, conv_pad), shape_flip (flip_slices over a clipped '
+    'rank), the stack family (vstack / dstack / column_stack shapes), kron / tensordot / dot / inner shapes',
+    'the capacity functions of Index/Capacity.lean model the branch "every operand bounded, none fixed" of each result-type metafunction; '
+    'mixed fixed/bounded operand kinds are C11\'s / C09\'s',
+]
 def _shared_pred(mod, name):
     def f(case):
         m = _mod(mod)
@@ -824,19 +1221,20 @@ def _shared_pred(mod, name):
     return f
 
 
-KNOWN_PREDICATES = {'eval_fixed_buffer_numel_changes': eval_fixed_buffer_numel_changes}
+KNOWN_PREDICATES = {'eval_fixed_buffer_numel_changes': eval_fixed_buffer_numel_changes,
+                    'known_diagonal_equal_axes': known_diagonal_equal_axes}
 for _m, _names in SHARED_KNOWN.items():
     for _n in _names:
         KNOWN_PREDICATES[_m + '_' + _n] = _shared_pred(_m, _n)
 TRUSTED = ['AddressSanitizer / UndefinedBehaviorSanitizer of g++ 12 and libstdc++ debug assertions as observers of real accesses',
            'the NMTOOLS_VERIF hook commits in $VERIF_REPO (hooks.json)']
 MANIFEST = dict(
-    text='Proof (index level): 67 Lean theorems. Every modelled view kind (55 obligations re-exported from C03/C04/C06/C07/C08/C17: transpose, '
+    text='Proof (index level): 89 Lean theorems. Every modelled view kind (55 obligations re-exported from C03/C04/C06/C07/C08/C17: transpose, '
          'reshape family, flip, swapaxes, moveaxis, tile, pad, take, repeat, concatenate, roll, resize, compress, expand, tril/triu, diagflat, '
          'sliding_window (scalar / list windows, axis lists, None), split (sections and cut lists), diagonal (any rank / axis pair / offset), where, stack family, broadcast_to/broadcast_arrays, ufunc operand reads, reduce/accumulate reads, pooling windows) maps '
          'every in-shape destination index to an in-shape source index for all ranks/extents/accepted arguments; in-bounds-ness composes through '
          'chains of any depth and through two-operand trees; an in-shape index addresses a position below the buffer length in both layouts; '
-         'evaluators only enumerate in-shape indices; index functions with bounded results write at most the operands\' bound many entries. '
+         'evaluators only enumerate in-shape indices; index functions with bounded results (23 shape functions, 6 index maps) write at most as many entries as the bound the result-type metafunction picks from the operands\' bounds (the bound itself is compared with bounded_size_v of the real result type on every run). '
          'Tied to the headers on every run: the real code under ASan+UBSan+_GLIBCXX_ASSERTIONS+asserts and the capacity/clamp/eval-skip hooks, on '
          'chains/trees of 13 view kinds over dynamic, bounded, fixed, hybrid storage (values vs NumPy and vs the Lean composition model), '
          'mutable views, and a replay of the accepted requests of C03/C04/C05/C06/C07/C08.',
